@@ -386,6 +386,7 @@ func (h *c14H) exec(line string) string {
 		h.trace = []string{line}
 		h.f = NewFix(h.r.T)
 		h.k = h.f.App.LockupKeeper
+		h.f.Rebind = append(h.f.Rebind, func() { h.k = h.f.App.LockupKeeper }) // C18 continue-after-import
 		h.minDur, h.fee = pi(1), pi(2)
 		h.allowed = map[int]bool{}
 		h.nA, h.nD = int(pi(4)), int(pi(5))
